@@ -109,6 +109,10 @@ func init() {
 		"verifSchedule": func(fr *frame, args []value) value {
 			fr.m.sched.mode = int(fr.m.asInt(args[0], "schedule mode"))
 			fr.m.sched.bound = int(fr.m.asInt(args[1], "schedule bound"))
+			// the native build cannot be forced to follow a chosen schedule:
+			// paths of schedule-quantified harnesses are not used as
+			// conformance samples (counterexamples are still replayed)
+			fr.m.noSample = true
 			return nil
 		},
 		"verifQuiesce": func(fr *frame, args []value) value { fr.m.sched.quiesce(fr.g); return nil },
@@ -161,6 +165,18 @@ func init() {
 		"verifGuardOn":    func(fr *frame, args []value) value { fr.m.guardOn = true; return nil },
 		"verifGuardOff":   func(fr *frame, args []value) value { fr.m.guardOn = false; return nil },
 		"verifRaceStress": noop,
+		"verifDailyLog":   inDailyLog,
+		"verifTempDir":    func(fr *frame, args []value) value { return "/verif-scratch-dir" },
+		"verifRemoveDir":  noop,
+		"verifSlow": func(fr *frame, args []value) value {
+			s := fr.m.sched
+			if s.mode == schedBounded {
+				s.visible(fr.g)
+			} else {
+				s.yield(fr.g)
+			}
+			return nil
+		},
 		"verifClockModel": func(fr *frame, args []value) value {
 			fr.m.clockJitter = uint64(fr.m.asInt(args[0], "clock jitter"))
 			return nil
